@@ -544,4 +544,199 @@ Proof.
   - rewrite Hpp1. exact Hto.
 Qed.
 
+
+(* ------------------------------------------------------------------------------------------ *)
+(* C06_garbage_discarded                                                                        *)
+
+Lemma spb_spec g (w : W) : w_rx w = [] ->
+  same_but_lba_pending g (sync_pending_bytes A g w) /\ f_pending (sync_pending_bytes A g w) = 0%nat /\
+  f_lba (sync_pending_bytes A g w) = f_lba g.
+Proof.
+  intros Hr. unfold sync_pending_bytes, same_but_lba_pending. rewrite Hr. cbn.
+  repeat split; try reflexivity. destruct (f_pending g); reflexivity.
+Qed.
+
+Lemma await_garbage f now (w : W) pa f1 w1 r :
+  decode_spec (w_rx w) = Reject -> f_lba f = Some now -> 0 <= slot_time (f_p f) ->
+  await_gap_poll_response A f now w pa = Ok (f1, w1, r) ->
+  r = GprWaiting /\ same_but_lba_pending f f1 /\ f_pending f1 = 0%nat /\ f_lba f1 = Some now /\
+  w_tx w1 = w_tx w /\ w_calls w1 = w_calls w /\ w_apps w1 = w_apps w /\ w_rx w1 = [].
+Proof.
+  intros Hd Hl Hs H. unfold await_gap_poll_response in H.
+  destruct (pa =? ts f); [discriminate H|]. destruct (negb _); [discriminate H|].
+  rewrite receive_telegram_spec, Hd in H. cbn [bind] in H.
+  match type of H with context [if ?c then note A w TGapRxDiscard else w] => destruct c end.
+  all: destruct (check_slot_expired _ now) as [[f2 b]| |] eqn:Ec; cbn [bind] in H; try discriminate H;
+    (apply cse_fresh in Ec; [|exact Hl|exact Hs]); destruct Ec as [-> ->];
+    injection H as <- <- <-;
+    match goal with |- context [sync_pending_bytes A ?g ?w] => destruct (spb_spec g w eq_refl) as [S1 [S2 S3]] end;
+    (split; [reflexivity|]); (split; [exact S1|]); (split; [exact S2|]); (split; [rewrite S3; exact Hl|]);
+    cbn; repeat split; reflexivity.
+Qed.
+
+(* Undecodable bytes newly in the receive buffer, seen in a state that reads the buffer: the whole
+   buffer is dropped, nothing is transmitted, no application is called, and nothing of the station
+   changes but the bus-activity bookkeeping (last_bus_activity = now, pending_bytes = 0).  (In the
+   other states the buffer is not looked at; the bytes stay until a reading state is reached.) *)
+Theorem garbage_discarded f now pin (apps : list A) f' o a c :
+  listens (f_state f) = true -> f_conn f = ConnOnline ->
+  tx_busy pin = false -> predicted f now = false -> (f_pending f < length (rx pin))%nat ->
+  decode_spec (rx pin) = Reject -> 0 <= slot_time (f_p f) -> 0 < token_lost_timeout (f_p f) ->
+  poll ops f now pin apps = Ok (f', o, a, c) ->
+  same_but_lba_pending f f' /\ f_pending f' = 0%nat /\ f_lba f' = Some now /\
+  o = mkPhyOut None [] /\ a = apps /\ c = [].
+Proof.
+  intros Hli Hc Hb Hp Hn Hd Hsl Hto H.
+  apply poll_inv in H. destruct H as [w' [H [-> [-> ->]]]]. rewrite Hb in H.
+  rewrite poll_inner_online in H; [|exact Hc|destruct (f_state f) as [ | |[x|] y|[x|] y z| |[ | | |x]| | | | ]; try discriminate Hli; reflexivity].
+  unfold body in H. rewrite Hp in H. cbn [orb] in H.
+  destruct (check_for_bus_activity A f now _) as [f1 w1] eqn:Ec.
+  apply cfba_new_bytes in Ec; [|exact Hp|exact Hn].
+  destruct Ec as [Hsame [Hl1 [_ [Htx1 [Hca1 [Hrx1 Hap1]]]]]].
+  cbn [w_tx w_calls w_rx w_apps] in Htx1, Hca1, Hrx1, Hap1.
+  pose proof Hsame as [Hp1 [_ [_ [_ [Hs1 _]]]]].
+  assert (Hsl1 : 0 <= slot_time (f_p f1)) by (rewrite Hp1; exact Hsl).
+  unfold dispatch in H. rewrite Hs1 in H.
+  destruct (f_state f) as [ | |[x|] cc|[x|] nps cc| |[ | | |a0]|addr tk fa| |att|a0] eqn:Es; try discriminate Hli;
+    cbn [kind_of poll_dispatch] in H.
+  - (* ListenToken None *)
+    unfold do_listen_token, assert_entry in H. rewrite Hs1 in H. cbn [kind_of do_fn_entry state_kind_eqb bind] in H.
+    rewrite (handle_lost_token_quiet A f1 now w1 now Hl1) in H;
+      [|rewrite Z.sub_diag; reflexivity|rewrite Z.sub_diag, Hp1; cbn; exact Hto].
+    cbn [bind] in H. rewrite Hs1 in H. cbn [get_listen_token bind] in H.
+    unfold receive_all_telegrams in H. rewrite Hrx1 in H. unfold receive_all_fuel in H.
+    rewrite receive_all_step, Hd in H. cbn [bind] in H. injection H as <- <-.
+    destruct (spb_spec f1 (set_rx A w1 []) eq_refl) as [S1 [S2 S3]].
+    split; [exact (sblp_trans _ _ _ Hsame S1)|]. split; [exact S2|]. split; [rewrite S3; exact Hl1|].
+    cbn. rewrite Htx1, Hca1, Hap1. repeat split; reflexivity.
+  - (* ActiveIdle None *)
+    unfold do_active_idle, assert_entry in H. rewrite Hs1 in H. cbn [kind_of do_fn_entry state_kind_eqb bind] in H.
+    rewrite (handle_lost_token_quiet A f1 now w1 now Hl1) in H;
+      [|rewrite Z.sub_diag; reflexivity|rewrite Z.sub_diag, Hp1; cbn; exact Hto].
+    cbn [bind] in H. rewrite Hs1 in H. cbn [get_active_idle bind] in H.
+    unfold receive_all_telegrams in H. rewrite Hrx1 in H. unfold receive_all_fuel in H.
+    rewrite receive_all_step, Hd in H. cbn [bind] in H. injection H as <- <-.
+    destruct (spb_spec f1 (set_rx A w1 []) eq_refl) as [S1 [S2 S3]].
+    split; [exact (sblp_trans _ _ _ Hsame S1)|]. split; [exact S2|]. split; [rewrite S3; exact Hl1|].
+    cbn. rewrite Htx1, Hca1, Hap1. repeat split; reflexivity.
+  - (* ClaimToken ScanAwaitResponse *)
+    unfold do_claim_token, assert_entry in H. rewrite Hs1 in H.
+    cbn [kind_of do_fn_entry state_kind_eqb bind get_claim_token_step] in H.
+    destruct (await_gap_poll_response A f1 now w1 a0) as [[[f2 w2] r]| |] eqn:Ea; cbn [bind] in H; try discriminate H.
+    apply await_garbage in Ea; [|rewrite Hrx1; exact Hd|exact Hl1|exact Hsl1].
+    destruct Ea as [-> [S1 [S2 [S3 [Htx2 [Hca2 [Hap2 Hrx2]]]]]]]. injection H as <- <-.
+    split; [exact (sblp_trans _ _ _ Hsame S1)|]. split; [exact S2|]. split; [exact S3|].
+    rewrite Htx2, Hca2, Hap2, Hrx2, Htx1, Hca1, Hap1. repeat split; reflexivity.
+  - (* AwaitDataResponse *)
+    unfold do_await_data_response, assert_entry in H. rewrite Hs1 in H.
+    cbn [kind_of do_fn_entry state_kind_eqb bind get_await_data_response] in H.
+    destruct (nth_error (w_apps w1) (f_next_app f1)) as [app|]; [|discriminate H].
+    rewrite receive_telegram_spec, Hrx1, Hd in H. cbn [bind] in H.
+    match type of H with context [if ?c then note A w1 TReplyRxDiscard else w1] => destruct c end.
+    all: destruct (check_slot_expired _ now) as [[f2 b]| |] eqn:Ecs; cbn [bind] in H; try discriminate H;
+      match type of Ecs with check_slot_expired (sync_pending_bytes A ?g ?w) _ = _ =>
+        destruct (spb_spec g w eq_refl) as [S1 [S2 S3]] end;
+      (apply cse_fresh in Ecs; [|rewrite S3; exact Hl1|destruct S1 as [S1 _]; rewrite S1; exact Hsl1]);
+      destruct Ecs as [-> ->]; injection H as <- <-;
+      (split; [exact (sblp_trans _ _ _ Hsame S1)|]); (split; [exact S2|]); (split; [rewrite S3; exact Hl1|]);
+      cbn; rewrite Htx1, Hca1, Hap1; repeat split; reflexivity.
+  - (* CheckTokenPass *)
+    unfold do_check_token_pass, assert_entry in H. rewrite Hs1 in H.
+    cbn [kind_of do_fn_entry state_kind_eqb bind] in H.
+    destruct (check_slot_expired f1 now) as [[f2 b]| |] eqn:Ecs; cbn [bind] in H; try discriminate H.
+    apply cse_fresh in Ecs; [|exact Hl1|exact Hsl1]. destruct Ecs as [-> ->].
+    rewrite Hrx1 in H. unfold receive_all_fuel in H. rewrite receive_all_step, Hd in H. cbn [bind] in H.
+    injection H as <- <-.
+    destruct (spb_spec f1 (set_rx A (note A w1 TCheckAwait) []) eq_refl) as [S1 [S2 S3]].
+    split; [exact (sblp_trans _ _ _ Hsame S1)|]. split; [exact S2|]. split; [rewrite S3; exact Hl1|].
+    cbn. rewrite Htx1, Hca1, Hap1. repeat split; reflexivity.
+  - (* AwaitStatusResponse *)
+    unfold do_await_status_response, assert_entry in H. rewrite Hs1 in H.
+    cbn [kind_of do_fn_entry state_kind_eqb bind get_await_status_response_address] in H.
+    destruct (await_gap_poll_response A f1 now w1 a0) as [[[f2 w2] r]| |] eqn:Ea; cbn [bind] in H; try discriminate H.
+    apply await_garbage in Ea; [|rewrite Hrx1; exact Hd|exact Hl1|exact Hsl1].
+    destruct Ea as [-> [S1 [S2 [S3 [Htx2 [Hca2 [Hap2 Hrx2]]]]]]]. injection H as <- <-.
+    split; [exact (sblp_trans _ _ _ Hsame S1)|]. split; [exact S2|]. split; [exact S3|].
+    rewrite Htx2, Hca2, Hap2, Hrx2, Htx1, Hca1, Hap1. repeat split; reflexivity.
+Qed.
+
+(* ------------------------------------------------------------------------------------------ *)
+(* C06_lost_token_recovers_alone (partial: the idle states)                                     *)
+
+Definition idle_state (s : state) : Prop :=
+  (exists cc, s = ListenToken None cc) \/ (exists nps cc, s = ActiveIdle None nps cc).
+
+Definition silent_in (t : Z) : Z * phy_in := (t, mkPhyIn false []).
+
+(* a poll of an idle station on a silent bus before its time-out has run out changes nothing *)
+Lemma idle_silent_poll f now (apps : list A) l :
+  f_conn f = ConnOnline -> idle_state (f_state f) -> f_lba f = Some l -> time_ok l -> time_ok now ->
+  l < now -> now - l < token_lost_timeout (f_p f) ->
+  exists f', poll ops f now (mkPhyIn false []) apps = Ok (f', mkPhyOut None [], apps, []) /\
+             f_conn f' = ConnOnline /\ f_state f' = f_state f /\ f_lba f' = Some l /\ f_p f' = f_p f.
+Proof.
+  intros Hc Hi Hl Tl Tn Hlt Hto. unfold poll, poll_traced. cbn [tx_busy rx].
+  rewrite poll_inner_online; [|exact Hc|destruct Hi as [[cc ->]|[nps [cc ->]]]; reflexivity].
+  unfold body, predicted. rewrite Hl. destruct (Z.leb_spec now l) as [C|_]; [lia|]. cbn [orb].
+  unfold check_for_bus_activity. cbn [w_rx length].
+  destruct (Nat.ltb_spec (f_pending f) 0) as [C|_]; [lia|].
+  assert (Hq : forall w : W, handle_lost_token A f now w = Ok (f, w, false)).
+  { intros w. apply (handle_lost_token_quiet A f now w l Hl).
+    - unfold time_ok in *. apply i64_ok_small. lia.
+    - rewrite Z.abs_eq by lia. exact Hto. }
+  unfold dispatch.
+  destruct Hi as [[cc Hs]|[nps [cc Hs]]]; rewrite Hs; cbn [kind_of poll_dispatch].
+  - unfold do_listen_token, assert_entry. rewrite Hs. cbn [kind_of do_fn_entry state_kind_eqb bind].
+    rewrite Hq. cbn [bind]. rewrite Hs. cbn [get_listen_token bind].
+    unfold receive_all_telegrams, receive_all_fuel. cbn [w_rx length]. rewrite receive_all_step.
+    cbn [decode_spec bind]. eexists. split; [reflexivity|]. cbn. repeat split; assumption.
+  - unfold do_active_idle, assert_entry. rewrite Hs. cbn [kind_of do_fn_entry state_kind_eqb bind].
+    rewrite Hq. cbn [bind]. rewrite Hs. cbn [get_active_idle bind].
+    unfold receive_all_telegrams, receive_all_fuel. cbn [w_rx length]. rewrite receive_all_step.
+    cbn [decode_spec bind]. eexists. split; [reflexivity|]. cbn. repeat split; assumption.
+Qed.
+
+(* A station alone on a silent bus, listening or idling in its ring, with its last recorded bus
+   activity at l: under ANY poll schedule - polls ts1 before the time-out has run out, in any number
+   and spacing, then a poll at T at or after l + token_lost_timeout - no poll panics, the early polls
+   transmit nothing and change nothing, and the poll at T transmits the claim token TS -> TS: the
+   station holds the token again (ClaimToken).  So the station is back within its time-out plus one
+   poll period after the last activity.  PARTIAL with respect to the plan: the states PassToken /
+   CheckTokenPass (a stale ring view has to be worked off by up to three retries per listed station)
+   and a pending status request are not covered. *)
+Theorem lone_station_claims : forall ts1 f (apps : list A) l T,
+  f_conn f = ConnOnline -> idle_state (f_state f) -> f_lba f = Some l -> time_ok l ->
+  Forall (fun t => time_ok t /\ l < t /\ t - l < token_lost_timeout (f_p f)) ts1 ->
+  time_ok T -> token_lost_timeout (f_p f) <= T - l -> l + p_bits_to_time (f_p f) sync_pause_bits < T ->
+  exists pre last,
+    run_polls ops f apps (map silent_in (ts1 ++ [T])) = Ok (pre ++ [last]) /\
+    Forall (fun s => tx (s_out s) = None /\ f_state (s_f' s) = f_state f) pre /\
+    length pre = length ts1 /\
+    s_now last = T /\ tx (s_out last) = Some (encode_token (ts f) (ts f)) /\
+    f_state (s_f' last) = ClaimToken StepSecondToken /\ have_token (f_state (s_f' last)) = true.
+Proof.
+  induction ts1 as [|t ts1 IH]; intros f apps l T Hc Hi Hl Tl Hall TT Hto Hsync.
+  - cbn [app map silent_in run_polls].
+    destruct (claim_progress A ops f T [] apps l) as [f' [Hp Hs]]; try assumption.
+    + destruct Hi as [[cc ->]|[nps [cc ->]]]; [left; eexists; eexists; reflexivity|right; eexists; eexists; eexists; reflexivity].
+    + cbn. lia.
+    + rewrite Hp. cbn [bind]. exists [], (mkStep f T (mkPhyIn false []) f' (mkPhyOut (Some (encode_token (ts f) (ts f))) [])).
+      cbn. rewrite Hs. repeat split; try reflexivity. constructor.
+  - inversion Hall as [|t0 l0 [Tt [Hlt Hbe]] Hall' E1]; subst.
+    destruct (idle_silent_poll f t apps l Hc Hi Hl Tl Tt Hlt Hbe) as [f1 [Hp [Hc1 [Hs1 [Hl1 Hp1]]]]].
+    cbn [app map silent_in run_polls]. fold silent_in. rewrite Hp. cbn [bind].
+    destruct (IH f1 apps l T) as [pre [last [Hrun [Hpre [Hlen [Hnow [Htx [Hst Hht]]]]]]]]; try assumption.
+    + rewrite Hs1. exact Hi.
+    + rewrite Hp1. exact Hall'.
+    + rewrite Hp1. exact Hto.
+    + rewrite Hp1. exact Hsync.
+    + change (map (fun t => (t, mkPhyIn false [])) (ts1 ++ [T])) with (map silent_in (ts1 ++ [T])).
+      rewrite Hrun. cbn [bind].
+      exists (mkStep f t (mkPhyIn false []) f1 (mkPhyOut None []) :: pre), last.
+      split; [reflexivity|]. split.
+      * constructor; [cbn; split; [reflexivity|exact Hs1]|].
+        eapply Forall_impl; [|exact Hpre]. intros s [E1 E2]. split; [exact E1|congruence].
+      * cbn [length]. rewrite Hlen. unfold ts in *. rewrite Hp1 in Htx. repeat split; try assumption.
+Qed.
+
 End WithApps.
